@@ -7,7 +7,7 @@
 From Coq Require Import String.
 From MdIt Require Import Prims Tables Escape NormRef Indent Mdurl SourceMap Ruler LinkParse Tree Render Block Inline Core Dispatch.
 From MdIt Require Import TreeProofs FragProofs PairsProofs.
-From MdIt Require KindProofs NoRootProofs.
+From MdIt Require KindProofs NoRootProofs PlaceProofs.
 From Coq Require Import Lia ZifyBool ZifyN ZifyNat.
 Local Open Scope list_scope.
 Local Open Scope N_scope.
@@ -301,4 +301,49 @@ Proof.
   intros Hp Hcc Hch Hd. destruct (parse_final_tree fuel m src d cc Hp Hcc Hch Hd) as (HK & Hr & Hm & _).
   destruct (render_events_total _ HK Hr Hm) as [es Ees].
   unfold render. rewrite Ees. cbn [bind]. eexists. reflexivity.
+Qed.
+
+(* ------------------------------------------------------------------ *)
+(* 4. placement: every parser with the paragraph rule, any core chain   *)
+
+Theorem parse_placed fuel m src d bc :
+  md_pairs_emph m = true -> snd (r_iter (md_block m)) = inr bc -> In R_PARA bc ->
+  snd (parse fuel m src) = inr d -> PlaceProofs.placed (d_root d) = true /\ n_kind (d_root d) = KRoot.
+Proof.
+  intros Hp Hbc Hpara. unfold parse.
+  destruct (r_iter (md_core m)) as [rc cc0]. destruct (r_iter (md_block m)) as [rb bc0]. destruct (r_iter (md_inline m)) as [ri ic0].
+  cbn [snd] in *. subst bc0. destruct cc0 as [|cc]; cbn [bind]; [discriminate|].
+  destruct ic0 as [|ic]; cbn [bind]; [discriminate|]. cbv zeta.
+  match goal with |- bind ?F _ = _ -> _ => destruct F as [|[[root' x] starts]] eqn:E end; cbn [bind]; [discriminate|].
+  intros H. injection H as <-. cbn [d_root].
+  eapply PlaceProofs.core_fold_placed in E; [exact E|exact Hpara|apply emph_inlkind; exact Hp|apply emph_inlarity; exact Hp|].
+  cbn [fst]. split; reflexivity.
+Qed.
+
+(* placement among final kinds only: no placeholder as a child anywhere *)
+Definition may_final (p c : kind) : bool := PlaceProofs.may p c && NR c && not_marker c.
+Fixpoint placed_final (n : node) : bool :=
+  let 'Node k _ _ _ cs := n in forallb (fun c => may_final k (n_kind c) && placed_final c) cs.
+
+Lemma placed_final_of n : PlaceProofs.placed n = true -> all_k NR n = true -> all_k not_marker n = true -> placed_final n = true.
+Proof.
+  induction n as [k m a e cs IH] using node_ind'. rewrite PlaceProofs.placed_node, !all_k_node. intros Hp H1 H2.
+  apply andb_true_iff in H1, H2. destruct H1 as [_ C1], H2 as [_ C2]. cbn [placed_final].
+  apply forallb_forall. intros c Hc. rewrite Forall_forall in IH. unfold all_l in *. rewrite forallb_forall in Hp, C1, C2.
+  specialize (Hp c Hc). apply andb_true_iff in Hp. destruct Hp as [Hm Hpc]. pose proof (C1 c Hc) as D1. pose proof (C2 c Hc) as D2.
+  rewrite (IH c Hc Hpc D1 D2), andb_true_r. unfold may_final. rewrite Hm. rewrite all_k_split in D1, D2.
+  apply andb_true_iff in D1, D2. destruct D1 as [-> _], D2 as [-> _]. reflexivity.
+Qed.
+
+(* the whole of C14 for one parser: shipped emphasis table, paragraph rule in the block chain, core chain in order *)
+Theorem parse_well_formed fuel m src d bc cc :
+  md_pairs_emph m = true -> snd (r_iter (md_block m)) = inr bc -> In R_PARA bc ->
+  snd (r_iter (md_core m)) = inr cc -> chain_renders cc = true ->
+  snd (parse fuel m src) = inr d ->
+  n_kind (d_root d) = KRoot /\ placed_final (d_root d) = true /\ frag_ok (d_root d) = true /\ all_k KO (d_root d) = true.
+Proof.
+  intros Hp Hbc Hpara Hcc Hch Hd.
+  destruct (parse_final_tree fuel m src d cc Hp Hcc Hch Hd) as (HK & Hr & Hm & Hf & Hk).
+  destruct (parse_placed fuel m src d bc Hp Hbc Hpara Hd) as [Hpl _].
+  repeat split; try assumption. apply placed_final_of; assumption.
 Qed.
